@@ -13,7 +13,7 @@ SPEC = dict(
     component="samplerreg",
     props_module="Refinery.Props.C13",
     gen_module="Refinery.Gen.Samplerreg",
-    quick=dict(cases=1600, len=40, shards=4),
+    quick=dict(cases=1000, len=40, shards=4),
     thorough=dict(cases=48000, len=60, shards=16),
     nontrivial=nontrivial,
     rule="same generated cases as C12 (real SamplerFactory, 1-4 simulated workers, histories of get/peers/peersfail/setcfg/"
